@@ -369,15 +369,16 @@ fn parse_check_line(mut line: &str) -> anyhow::Result<ParsedCheckLine> {
     }
 
     // Split the line. It might be "<hash>  <file>" or "BLAKE3 (<file>) = <hash>". The latter comes
-    // from the --tag flag.
+    // from the --tag flag. Try the tagged form first: a tagged <file> may itself contain "  ", but
+    // a valid untagged line starts with a hex digit and can never start with "BLAKE3 (".
     let hash_hex;
     let file_str;
-    if let Some((left, right)) = split_untagged_check_line(line_after_slash) {
-        hash_hex = left;
-        file_str = right;
-    } else if let Some((left, right)) = split_tagged_check_line(line_after_slash) {
+    if let Some((left, right)) = split_tagged_check_line(line_after_slash) {
         file_str = left;
         hash_hex = right;
+    } else if let Some((left, right)) = split_untagged_check_line(line_after_slash) {
+        hash_hex = left;
+        file_str = right;
     } else {
         bail!("Invalid check line format");
     }
